@@ -20,3 +20,6 @@ mod light_self_emulation;
 
 #[cfg(not(feature = "truncated-challenges"))]
 pub mod light_aggregator;
+
+#[cfg(all(feature = "verif-hooks", not(feature = "truncated-challenges")))]
+pub mod verif_hooks;
